@@ -58,6 +58,6 @@ func (c01) Generate(r *engine.Rand, index int, tier string) *engine.Scenario {
 	return sc
 }
 
-var c01Focus = map[string]bool{"regs": true, "mem": true, "flags-low": true, "stray": true, "if": true, "ie": true}
+var c01Focus = map[string]bool{"regs": true, "mem": true, "buswrite": true, "buswrite-missing": true, "flags-low": true, "stray": true, "if": true, "ie": true}
 
 func (c01) Execute(sc *engine.Scenario) *engine.Result { return executeCPU("C01", sc, c01Focus) }
